@@ -196,6 +196,45 @@ Proof.
   cbn [app filter map hd]. rewrite Hu. repeat split; reflexivity.
 Qed.
 
+(* the same with a web seed: &ws=u *)
+Lemma two_pairs_values_ws k hx u : ~ In 38 (xt_pair ++ hx) -> ~ In 38 u ->
+  param_values k ((xt_pair ++ hx) ++ 38 :: 119 :: 115 :: 61 :: u) =
+  (if bytes_eqb [120; 116] k then [[117; 114; 110; 58; 98; 116; 105; 104; 58] ++ hx] else []) ++
+  (if bytes_eqb [119; 115] k then [u] else []).
+Proof.
+  intros Hx Hu. unfold param_values. rewrite split_on_app by exact Hx.
+  rewrite split_on_end.
+  2:{ intros [H | [H | [H | H]]]; [discriminate H | discriminate H | discriminate H | exact (Hu H)]. }
+  cbn [rev app].
+  change (filter nonempty [xt_pair ++ hx; 119 :: 115 :: 61 :: u]) with [xt_pair ++ hx; 119 :: 115 :: 61 :: u].
+  cbn [flat_map].
+  change (split_at 61 (xt_pair ++ hx)) with (Some ([120; 116], [117; 114; 110; 58; 98; 116; 105; 104; 58] ++ hx)).
+  change (split_at 61 (119 :: 115 :: 61 :: u)) with (Some ([119; 115], u)).
+  cbv iota beta. rewrite app_nil_r. reflexivity.
+Qed.
+
+Theorem magnet_with_webseed h u :
+  List.length h = 20%nat -> Forall (fun b => b < 256) h -> http_url u = true -> ~ In 38 u ->
+  let m := magnet_of h (38 :: 119 :: 115 :: 61 :: u) in
+  read_magnet m = MgOk h /\
+  mp_webseeds (magnet_params m) = [u] /\ mp_tiers (magnet_params m) = [] /\ mp_name (magnet_params m) = [].
+Proof.
+  intros Hl Hb Hu Hamp m. split.
+  { apply magnet_roundtrip; [exact Hl | exact Hb | right; eexists; reflexivity]. }
+  assert (Hn : ~ In 38 (xt_pair ++ hex_encode h)).
+  { intros H. apply in_app_or in H. destruct H as [H | H]; [exact (not_amp_xt_pair H) | exact (hex_encode_no_amp h Hb H)]. }
+  assert (Em : m = 109 :: 97 :: 103 :: 110 :: 101 :: 116 :: 58 :: 63 :: (xt_pair ++ hex_encode h) ++ 38 :: 119 :: 115 :: 61 :: u).
+  { unfold m, magnet_of. rewrite prefix_eq. rewrite <- !app_assoc. reflexivity. }
+  unfold magnet_params. rewrite Em, link_not_bare, link_query.
+  cbn [mp_tiers mp_webseeds mp_name].
+  rewrite !two_pairs_values_ws by assumption.
+  change (bytes_eqb [120; 116] key_tr) with false. change (bytes_eqb [119; 115] key_tr) with false.
+  change (bytes_eqb [120; 116] key_as) with false. change (bytes_eqb [119; 115] key_as) with false.
+  change (bytes_eqb [120; 116] key_ws) with false. change (bytes_eqb [119; 115] key_ws) with true.
+  change (bytes_eqb [120; 116] key_dn) with false. change (bytes_eqb [119; 115] key_dn) with false.
+  cbn [app filter map hd]. rewrite Hu. repeat split; reflexivity.
+Qed.
+
 (* ---------- base32 ---------- *)
 Lemma b32val_char v : v < 32 -> b32val (b32char v) = Some v.
 Proof.
